@@ -191,7 +191,8 @@ def execute(case, ctx):
         fired = [f for f in res.get("fired", []) if f[0] == idx]
         if not fired:
             # the run took another path before reaching the index (only possible if the session is not deterministic)
-            out["discards"]["fault-index-not-reached"] = out["discards"].get("fault-index-not-reached", 0) + 1
+            # ... or the fault could not take effect there (a legacy-encoding answer of the formatter for ASCII-only text)
+            out["discards"]["fault-index-not-reached-or-without-effect"] = out["discards"].get("fault-index-not-reached-or-without-effect", 0) + 1
             continue
         ctx.count("fault_sessions")
         pos = write_order.index(rel) if rel in write_order else -1
